@@ -237,6 +237,7 @@ type CfgOp struct {
 	Kind  string            `json:"k"` // update | override | restart
 	Set   map[string]string `json:"set,omitempty"`
 	Var   int               `json:"var,omitempty"`
+	Bad   string            `json:"bad,omitempty"` // badupdate: the setting that gets a value of the wrong JSON type
 }
 
 type CfgPlan struct {
@@ -254,6 +255,22 @@ func genCfgPlan(r *rand.Rand) *CfgPlan {
 			for k := 0; k < 1+r.IntN(3); k++ {
 				ps := tbl[r.IntN(len(tbl))]
 				op.Set[pathKey(ps.Path)] = ps.vals[r.IntN(len(ps.vals))]
+			}
+			p.Ops = append(p.Ops, op)
+		case x == 9 || x == 8 && r.IntN(2) == 0:
+			// a document that must be refused while it is read: workable values for some settings
+			// and an ill-typed value for another one
+			op := CfgOp{Kind: "badupdate", Set: map[string]string{}, Var: r.IntN(4)}
+			for k := 0; k < 1+r.IntN(2); k++ {
+				ps := tbl[r.IntN(len(tbl))]
+				op.Set[pathKey(ps.Path)] = ps.vals[r.IntN(len(ps.vals))]
+			}
+			for {
+				ps := tbl[r.IntN(len(tbl))]
+				if _, dup := op.Set[pathKey(ps.Path)]; !dup {
+					op.Bad = pathKey(ps.Path)
+					break
+				}
 			}
 			p.Ops = append(p.Ops, op)
 		case x < 7:
@@ -286,6 +303,13 @@ func runCfgPlan(t *testing.T, planAny any, ctl Ctl) *Result {
 	for _, ps := range tbl {
 		byKey[pathKey(ps.Path)] = ps
 	}
+	// no tasks here, but the order in which the code walks an update document (a Go map) is
+	// decided by the seed like every other choice
+	ms := zzsim.New(ctl.Seed, zzsim.Policy{MapPerm: true})
+	ms.Attach()
+	defer ms.Detach()
+	ms.Exempt()
+	defer ms.Unexempt()
 	path := filepath.Join("var", "config.json")
 	cfg, err := config.LoadOrDefault(path)
 	if err != nil {
@@ -365,6 +389,40 @@ func runCfgPlan(t *testing.T, planAny any, ctl Ctl) *Result {
 				base[k] = op.Set[k]
 			}
 			check("update")
+			checkFile()
+		case "badupdate":
+			doc := map[string]any{}
+			var desc []string
+			keys := make([]string, 0, len(op.Set))
+			for k := range op.Set {
+				keys = append(keys, k)
+			}
+			sort.Strings(keys)
+			for _, k := range keys {
+				ps := byKey[k]
+				dv := docValue(ps.Kind, op.Set[k], op.Var)
+				setPath(doc, ps.Path, dv)
+				desc = append(desc, fmt.Sprintf("%s=%v", k, dv))
+			}
+			bad := byKey[op.Bad]
+			var bv any = 12.5
+			if bad.Kind == "int" || bad.Kind == "bool" {
+				bv = "x"
+			}
+			setPath(doc, bad.Path, bv)
+			desc = append(desc, fmt.Sprintf("%s=%v(ill-typed)", op.Bad, bv))
+			hist = append(hist, "refused update "+strings.Join(desc, ","))
+			st, err := config.UpdatePartialFromConfig(cfg, doc)
+			if err == nil && st != config.UpdateStatusFailed {
+				// C18's business; keep the reference in step with what the code did
+				for _, k := range keys {
+					base[k] = op.Set[k]
+				}
+				hist[len(hist)-1] += " (accepted!)"
+				continue
+			}
+			res.Probes["refused_update"]++
+			check("refused update")
 			checkFile()
 		case "override":
 			for k, v := range op.Set {
@@ -774,6 +832,7 @@ type CompPlan struct {
 	Override  string       `json:"override,omitempty"` // "listen" | "cache_dir" | "level": a command-line override is in force
 	Destroy   string       `json:"destroy,omitempty"`  // "", "cache-first", "logger-first": components shut down before the last change
 	PersistAt int          `json:"persist_at,omitempty"` // >0: RLIMIT_FSIZE for the last change's persist step
+	Retry     bool         `json:"retry,omitempty"`      // the change hit by the persist fault is submitted once more, without the fault
 	Rapid     bool         `json:"rapid,omitempty"`      // changes follow one another without waiting for the notifications of the previous one
 	Pol       zzsim.Policy `json:"pol"`
 }
@@ -794,6 +853,11 @@ var compInvalid = []string{
 	`{"cache":{"memory":{"memory_budget_percent":40}},"proxy":{"listen":""}}`, `{"cache":{"max_cache_size":"8192B"},"webserver":{"listen":""}}`,
 	`{"cache":{"lock_shards":0}}`, `{"cache":{"lock_shards":-3}}`, `{"cache":{"lock_shards":"many"}}`, `{"proxy":{"listen":"","ca_cert":"x"}}`, `{"cache":{"file":{"dir":""}},"logging":{"level":"WARN"}}`,
 	`{"cache":{"max_cache_size":"3G M"}}`, `{"cache":{"max_cache_size":"K"}}`, `{"cache":{"max_cache_size":"99999999999999999999B"}}`,
+	// a workable value for one setting next to an ill-typed one for another: refused while the document
+	// is being read, possibly after the first setting has already been taken in
+	`{"cache":{"max_cache_size":"4096B","cleanup_interval":12}}`, `{"cache":{"cleanup_interval":"250ms","max_cache_size":true}}`, `{"logging":{"level":"DEBUG"},"cache":{"lock_shards":"many"}}`,
+	`{"cache":{"memory":{"memory_budget_percent":40}},"proxy":{"listen":7}}`, `{"cache":{"max_cache_size":"8192B"},"logging":{"level":5.5}}`, `{"cache":{"cleanup_interval":"350ms"},"proxy":{"retry_on_invalid_range":"yes"}}`,
+	`{"logging":{"level":"WARN"},"cache":{"memory":{"memory_budget_percent":"x"}}}`,
 }
 
 func genCompPlan(r *rand.Rand, faults bool) *CompPlan {
@@ -840,11 +904,16 @@ func genCompPlan(r *rand.Rand, faults bool) *CompPlan {
 		p.Override = "cache_dir"
 	}
 	if r.IntN(5) == 0 {
-		p.Destroy = []string{"cache-first", "logger-first"}[r.IntN(2)]
+		p.Destroy = []string{"cache-first", "logger-first", "ctx-then-cache"}[r.IntN(3)]
 	}
 	if faults {
 		// the short-write offset is enumerated by run index, so a batch covers every byte of the file
 		p.PersistAt = 1 + int(currentSeed&0xffffffff)/2%1400
+		if r.IntN(2) == 0 && len(p.Changes) > 0 && p.Destroy == "" {
+			// the operator tries the same update again once the disk is writable
+			p.Retry = true
+			p.Changes = append(p.Changes, p.Changes[len(p.Changes)-1])
+		}
 	} else if r.IntN(2) == 0 {
 		// back-to-back accepted changes of the same settings
 		p.Rapid = true
@@ -957,6 +1026,7 @@ func runCompPlan(t *testing.T, planAny any, ctl Ctl) *Result {
 		}
 		settle := func() { s.WaitUntil("harness:settle", time.Now().Add(time.Millisecond)) }
 		cacheDestroyed, loggerDestroyed := false, false
+		var destroyedState [3]int64
 		var callsAtDestroy int
 		var restartCleanup func()
 		s.Spawn("actor:config", func() {
@@ -964,11 +1034,24 @@ func runCompPlan(t *testing.T, planAny any, ctl Ctl) *Result {
 			lastMax, lastInt, lastLvl, lastPct := cfg.Cache.MaxCacheSize.Read().Bytes(), cfg.Cache.CleanupInterval.Read().Cast(), cfg.Logging.Level.Read(), cfg.Cache.Memory.MemoryBudgetPercent.Read()
 			startCap := cache.VerifMemoryCap(c)
 			startPct := lastPct
+			faultIdx := len(p.Changes) - 1
+			if p.Retry {
+				faultIdx--
+			}
 			for i, ch := range p.Changes {
 				if i == len(p.Changes)-1 && p.Destroy != "" {
-					if p.Destroy == "cache-first" {
+					if p.Destroy == "cache-first" || p.Destroy == "ctx-then-cache" {
+						if p.Destroy == "ctx-then-cache" {
+							// the process context ends first (the janitor task returns), Destroy comes afterwards
+							cancel()
+							settle()
+							settle()
+						}
 						c.Destroy()
 						cacheDestroyed = true
+						settle()
+						destroyedState = [3]int64{cache.VerifMaxSize(c), int64(cache.VerifInterval(c)), cache.VerifMemoryCap(c)}
+						cache.VerifDrainIntervalChan(c)
 					} else {
 						logging.VerifReset()
 						loggerDestroyed = true
@@ -1004,7 +1087,7 @@ func runCompPlan(t *testing.T, planAny any, ctl Ctl) *Result {
 				before := snapshot()
 				ncalls := len(calls)
 				restore := func() {}
-				if p.PersistAt > 0 && i == len(p.Changes)-1 {
+				if p.PersistAt > 0 && i == faultIdx {
 					restore = setFsizeLimit(uint64(p.PersistAt))
 					if p.PersistAt < len(before.file) {
 						res.Faults["persist_short_write"]++
@@ -1053,7 +1136,7 @@ func runCompPlan(t *testing.T, planAny any, ctl Ctl) *Result {
 					if !ch.Valid {
 						continue
 					}
-					if p.PersistAt == 0 || i != len(p.Changes)-1 {
+					if p.PersistAt == 0 || i != faultIdx {
 						res.violate("C18.b", "valid-update-rejected: "+updateClass(ch.Doc), "update %s was rejected: %v [history: %s]", ch.Doc, uerr, history)
 					}
 					continue
@@ -1118,12 +1201,25 @@ func runCompPlan(t *testing.T, planAny any, ctl Ctl) *Result {
 					}
 				}
 			}
+			if cacheDestroyed {
+				// C19.d: a component that has been shut down is not notified of any later change
+				res.Probes["change_after_cache_shutdown"]++
+				now := [3]int64{cache.VerifMaxSize(c), int64(cache.VerifInterval(c)), cache.VerifMemoryCap(c)}
+				if n := cache.VerifDrainIntervalChan(c); n > 0 {
+					res.violate("C19.d", "shut-down-cache-notified ("+p.Destroy+")", "%d interval notification(s) were delivered to the janitor of a cache that had been shut down before the change [history: %s]", n, history)
+				} else if now != destroyedState {
+					res.violate("C19.d", "shut-down-cache-notified ("+p.Destroy+")", "the shut-down cache took in a later change: limit/interval/memory cap %v -> %v [history: %s]", destroyedState, now, history)
+				}
+			}
 			if !loggerDestroyed && fin.level != lastLvl {
 				res.violate("C19.c", "log-level-not-latest"+overrideTag(p, "level")+rapidTag(p), "the logger filters at %v, the most recent accepted (effective) value is %v [history: %s]", fin.level, lastLvl, history)
 			}
 			_ = callsAtDestroy
 			// ---- C18.b/c: what was accepted is what the next start loads, and the proxy can run under it
-			if p.PersistAt == 0 {
+			if p.PersistAt == 0 || p.Retry {
+				if p.Retry {
+					res.Probes["retry_after_persist_fault"]++
+				}
 				ncfg, lerr := config.LoadOrDefault(path)
 				res.Evals++
 				if lerr != nil {
